@@ -230,3 +230,207 @@ def f2_calls(job):
         rec["exc"] = exc_name(e) + ": " + str(e)[:200]
     rec["unchanged"] = 1 if (A.shape == before.shape and (A == before).all() and A.dtype == before.dtype) else 0
     return rec
+
+
+# ---------------------------------------------------------------------------------------------
+# graph codec / mutators, grouping codecs
+# ---------------------------------------------------------------------------------------------
+def graph_op(job):
+    n, src, kind, a, b = job
+    lib = L()
+    G = lib.graph.Graph
+    rec = {"op": "graphop", "n": n, "src": src, "kind": kind, "a": a, "b": b, "twice": -1, "id2": -1, "exc": ""}
+    try:
+        g = G.decompress(n, src)
+        rec["srcrows"] = impl.graph_rows(g)
+        rec["srcid"] = int(g.compress())
+        if kind == "lc":
+            rec["id2"] = int(g.local_complemented(a).compress())
+            g.local_complementation(a)
+            h = g.copy()
+            h.local_complementation(a)
+            rec["twice"] = int(h.compress())
+        elif kind == "toggle":
+            if g.has_edge(a, b):
+                g.remove_edge(a, b)
+            else:
+                g.add_edge(a, b)
+        elif kind == "swap":
+            g.swap(a, b)
+        rec["rows"] = impl.graph_rows(g)
+        rec["id"] = int(g.compress())
+    except Exception as e:
+        rec["exc"] = exc_name(e)
+    return rec
+
+
+def _blocks(repr_):
+    return [[int(x) for x in t.data] for groups in repr_.groups for t in groups]
+
+
+def grouping_records(_):
+    import itertools
+    lib = L()
+    li = lib.linear_index
+    recs = []
+    seen = set()
+    for n in range(2, 7):
+        cls = getattr(lib.lc_classes, f"LCClass{n}")
+        for name, com in cls.combinatorics.items():
+            if (n, name) in seen:
+                continue
+            seen.add((n, name))
+            digits = [int(c) for c in name if c.isdigit()]
+            ordered = 1 if name.endswith("s") else 0
+            trivial = len(digits) == 1
+            sizes = [0] * 6
+            if not trivial:
+                for d in digits:
+                    sizes[d - 1] += 1
+            to, frm, count = com["from_lin_idx1"], com["to_lin_idx"], int(com["count"])
+            rec = {"op": "grouping", "type": name, "n": 0 if trivial else sum(digits), "sizes": sizes, "count": count, "ordered": ordered,
+                   "images": [], "back": [], "perm": [], "singles": [], "exc": ""}
+            try:
+                for i in range(count):
+                    r = to(i)
+                    blocks = _blocks(r)
+                    rec["images"].append(blocks)
+                    rec["singles"].append([b[0] for b in blocks if len(b) == 1] if ordered else [])
+                    rec["back"].append(int(frm(to(i))))
+                    pb = []
+                    tuples = [t for groups in to(i).groups for t in groups]
+                    for perm in itertools.permutations(range(len(tuples))):
+                        order = [tuples[k] for k in perm]
+                        if ordered:  # the relative order of the singletons is part of the value
+                            s_in = [t.data for t in tuples if len(t) == 1]
+                            s_out = [t.data for t in order if len(t) == 1]
+                            if s_in != s_out:
+                                continue
+                        rp = li.Repr([li.NTuple(list(t.data)) for t in order]) if order else li.Repr()
+                        pb.append(int(frm(rp)))
+                    rec["perm"].append(pb)
+            except Exception as e:
+                rec["exc"] = exc_name(e) + ": " + str(e)[:100]
+            recs.append(rec)
+        K = impl.NUM_CLASSES[n]
+        sr = {"op": "startidx", "n": n, "starts": [int(x) for x in cls._start_indices], "counts": [], "reids": [], "types": [], "exc": ""}
+        try:
+            for t in cls.EntanglementStructure:
+                sr["counts"].append(int(cls.combinatorics[cls.combinatorics_map[t]]["count"]))
+            for i in range(K):
+                sr["reids"].append(int(cls(i).id()))
+                sr["types"].append(int(cls.get_entanglement_structure(i)))
+        except Exception as e:
+            sr["exc"] = exc_name(e)
+        recs.append(sr)
+    return recs
+
+
+# ---------------------------------------------------------------------------------------------
+# Stabilizer formats, predicates, layer search
+# ---------------------------------------------------------------------------------------------
+def _stab_fields(st, suffix=""):
+    return {"R" + suffix: _mat(st.R), "S" + suffix: _mat(st.S), "ph" + suffix: [int(x) for x in st.phases]}
+
+
+def denote(job):
+    """job: {"n", "fmt": strings|matrices|graph|circuit, ...} -> one `denote` record"""
+    import numpy as np
+    lib = L()
+    St = lib.stabilizer.Stabilizer
+    n, fmt = job["n"], job["fmt"]
+    rec = {"op": "denote", "n": n, "fmt": fmt, "strs": [], "Rin": [], "Sin": [], "phin": [], "hasph": 0, "g": -1, "program": [], "exc": "", "unchanged": 1}
+    try:
+        if fmt == "strings":
+            strs = list(job["strs"])
+            rec["strs"] = [list(s) for s in strs]
+            arg = list(strs)
+            st = St(arg)
+            rec["unchanged"] = 1 if arg == strs else 0
+        elif fmt == "matrices":
+            dt = getattr(np, job.get("dtype", "int8"))
+            R, S = np.array(job["R"], dtype=dt), np.array(job["S"], dtype=dt)
+            rec["Rin"], rec["Sin"] = job["R"], job["S"]
+            if job.get("ph") is not None:
+                ph = np.array(job["ph"], dtype=dt)
+                rec["phin"], rec["hasph"] = job["ph"], 1
+                st = St((R, S, ph))
+                rec["unchanged"] = 1 if (ph.tolist() == job["ph"]) else 0
+            else:
+                st = St((R, S))
+            if R.tolist() != job["R"] or S.tolist() != job["S"]:
+                rec["unchanged"] = 0
+        elif fmt == "graph":
+            g = lib.graph.Graph.decompress(n, job["g"])
+            rec["g"] = job["g"]
+            st = St(g)
+            rec["unchanged"] = 1 if int(g.compress()) == job["g"] else 0
+        elif fmt == "circuit":
+            qc = impl.circuit_from_gates(n, job["program"])
+            rec["program"] = job["program"]
+            before = impl.gates_of(qc)
+            st = St(qc)
+            rec["unchanged"] = 1 if impl.gates_of(qc) == before else 0
+        rec.update(_stab_fields(st))
+        tl = st.to_list()
+        rec["tolist"] = [list(s) for s in tl]
+        rec["tolistq"] = [list(s) for s in st.to_list(qiskit_convention=True)]
+        rec.update(_stab_fields(St(list(tl)), "2"))
+    except Exception as e:
+        rec["exc"] = exc_name(e) + ": " + str(e)[:120]
+    return rec
+
+
+def predicates(job):
+    n, a, b = job
+    rec = {"op": "pred", "n": n, "a": a, "b": b, "exc": ""}
+    try:
+        sa, sb = stab_from_codes(n, a), stab_from_codes(n, b)
+        rec["equiv"] = 1 if sa.is_equivalent_mod_phase(sb) else 0
+        X, Z = sa.expand()
+        rec["expX"], rec["expZ"] = _mat(X), _mat(Z)
+        rec["ent"] = [1 if sa.is_qubit_entangled(q) else 0 for q in range(n)]
+    except Exception as e:
+        rec["exc"] = exc_name(e) + ": " + str(e)[:120]
+    return rec
+
+
+def layer_search(job):
+    """job = (n, P codes (m of them, sign ignored), graph id)"""
+    import numpy as np
+    n, P, g = job
+    lib = L()
+    fl = lib.find_local_clifford_layer
+    m = len(P)
+    R = np.zeros((n, m), dtype=np.int8)
+    S = np.zeros((n, m), dtype=np.int8)
+    for j, c in enumerate(P):
+        for q in range(n):
+            R[q, j] = (c >> q) & 1
+            S[q, j] = (c >> (8 + q)) & 1
+    rec = {"op": "layer", "n": n, "P": [c % impl.W2 for c in P], "g": g, "res": "none", "blocks": [], "offdiag": 0, "gates": [], "circ": 0, "exc": ""}
+    graph = lib.graph.Graph.decompress(n, g)
+    Rb, Sb = R.copy(), S.copy()
+    try:
+        A = fl.find_local_clifford_layer(R, S, graph)
+    except Exception as e:
+        rec["res"] = "raise"
+        rec["exc"] = exc_name(e) + ": " + str(e)[:120]
+        return rec
+    rec["unchanged"] = 1 if ((R == Rb).all() and (S == Sb).all() and int(graph.compress()) == g) else 0
+    if A is None:
+        return rec
+    rec["res"] = "layer"
+    try:
+        rec["blocks"] = [[int(A[j][i, i]) & 1 for j in range(4)] for i in range(n)]
+        rec["offdiag"] = 1 if any(int(A[j][a, b]) for j in range(4) for a in range(n) for b in range(n) if a != b) else 0
+        if len(A) != 4 or any(tuple(A[j].shape) != (n, n) for j in range(4)):
+            rec["offdiag"] = 1
+    except Exception as e:
+        rec["offdiag"] = 1
+    try:
+        rec["gates"] = impl.gates_of(fl.local_clifford_layer_to_circuit(A))
+        rec["circ"] = 1
+    except Exception as e:
+        rec["circ"] = 0
+    return rec
